@@ -119,7 +119,7 @@ static ppointer tls_body(ppointer arg)
 }
 static void h_tls(int argc, char **argv)
 {
-    int n = argc > 0 ? atoi(argv[0]) : 2, i; PUThread *t[3]; long keys0 = mc_keys_live();
+    int n = argc > 0 ? atoi(argv[0]) : 2, i; PUThread *t[3]; long keys0 = mc_keys_live(), blocks0 = mc_blocks_outstanding();
     tls_variant = argc > 1 ? argv[1][0] : 'a';
     key = p_uthread_local_new(tls_destroy);
     if (!key) mc_fail("C05", "local-new-failed", "p_uthread_local_new returned NULL");
@@ -134,6 +134,24 @@ static void h_tls(int argc, char **argv)
     if (null_destroys_now()) mc_fail("C05", "tls/notifier-called-with-null", "the destroy notifier was called %d time(s) with NULL (it must run only for non-NULL stored values)", null_destroys_now());
     if (MODEL && mc_keys_live() != keys0 + 1) mc_fail("C05", "tls/native-keys", "%ld native TLS keys allocated for one PUThreadKey (the loser of the creation race must delete its key)", mc_keys_live() - keys0);
     p_uthread_local_free(key);
+    if (MODEL && mc_blocks_outstanding() != blocks0) mc_fail("C05", "tls/leak", "%ld heap block(s) still allocated after the threads ended and the key reference was freed (a loser of the first-use race must release what it allocated)", mc_blocks_outstanding() - blocks0);
+    mc_nontrivial(0);
+    mc_outcome("ok");
+}
+
+/* ------------------------------------------------------------------ library shut down from a foreign thread that exits afterwards */
+static void *shutdown_body(void *arg)
+{
+    PUThread *me = p_uthread_current(); (void)arg;
+    if (!me) mc_fail("C05", "current-null", "p_uthread_current returned NULL");
+    p_libsys_shutdown();          /* releases the thread's handle; nothing may touch it again when this thread exits */
+    return NULL;
+}
+static void h_shutdown(int argc, char **argv)
+{
+    int t; (void)argc; (void)argv;
+    t = mc_thread_create(shutdown_body, NULL);
+    mc_thread_join(t);
     mc_nontrivial(0);
     mc_outcome("ok");
 }
@@ -161,6 +179,6 @@ static void h_foreign(int argc, char **argv)
 }
 
 static const McHarness HS[] = {
-    {"join", h_join, "<code|r>"}, {"refs", h_refs, "<j|d> <script RUJ> <e|s>"}, {"tls", h_tls, "<threads>"}, {"foreign", h_foreign, ""},
+    {"join", h_join, "<code|r>"}, {"refs", h_refs, "<j|d> <script RUJ> <e|s>"}, {"tls", h_tls, "<threads>"}, {"foreign", h_foreign, ""}, {"shutdown", h_shutdown, ""},
 };
-int main(int argc, char **argv) { return mc_main(argc, argv, HS, 4); }
+int main(int argc, char **argv) { return mc_main(argc, argv, HS, 5); }
